@@ -9,6 +9,11 @@ from __future__ import annotations
 from . import sym as S
 
 
+class Ghost:
+    """base class of contract-level stand-ins for external objects (a Lark parser, a file object, ...):
+    their methods are contract code and are called natively with the interpreter as first argument"""
+
+
 class AbsColl:
     def __init__(self, name, **info):
         self.name = name
